@@ -195,13 +195,13 @@ class PathResult:
 
 
 class Frame:
-    __slots__ = ("fn", "uid", "bb", "idx", "dest", "ret_bb")
+    __slots__ = ("fn", "uid", "bb", "idx", "dest", "ret_bb", "wrap")
 
-    def __init__(self, fn, uid, dest=None, ret_bb=None):
-        self.fn, self.uid, self.bb, self.idx, self.dest, self.ret_bb = fn, uid, "bb0", 0, dest, ret_bb
+    def __init__(self, fn, uid, dest=None, ret_bb=None, wrap=None):
+        self.fn, self.uid, self.bb, self.idx, self.dest, self.ret_bb, self.wrap = fn, uid, "bb0", 0, dest, ret_bb, wrap
 
     def copy(self):
-        f = Frame(self.fn, self.uid, self.dest, self.ret_bb)
+        f = Frame(self.fn, self.uid, self.dest, self.ret_bb, self.wrap)
         f.bb, f.idx = self.bb, self.idx
         return f
 
@@ -358,6 +358,13 @@ class Engine:
             raise Unsupported("field of %r" % (v,))
         if k == "downcast":
             return v
+        if k == "symderef":
+            if isinstance(v, Sym):
+                key = ("*",)
+                if key in v.over:
+                    return v.over[key]
+                return self.mk_sym(step[1], v.name + "*")
+            raise Unsupported("symderef of %r" % (v,))
         if k == "constindex" or k == "index_c":
             i = step[1]
             if isinstance(v, Arr):
@@ -381,6 +388,11 @@ class Engine:
         k = step[0]
         if k == "downcast":
             return self._update(v, path[1:], new)
+        if k == "symderef" and isinstance(v, Sym):
+            cur = self._child(v, step)
+            over = dict(v.over)
+            over[("*",)] = self._update(cur, path[1:], new)
+            return Sym(v.name, v.ty, over)
         if k == "field":
             i = step[1]
             if isinstance(v, Adt):
@@ -422,6 +434,9 @@ class Engine:
                     root, path = v.root, list(v.path)
                 elif isinstance(v, BoxV):
                     path.append(("box",))
+                elif isinstance(v, Sym) and v.ty.strip().startswith("&"):
+                    inner_ty = re.sub(r"^&('\w+ )?(mut )?", "", v.ty.strip())
+                    path.append(("symderef", inner_ty))
                 else:
                     raise Unsupported("deref of %r (place %r)" % (v, place))
                 pending_variant = None
@@ -580,6 +595,11 @@ class Engine:
             return self._const_cache[key]
         name = strip_generics(t)
         last = name.split("::")[-1]
+        xc = getattr(self, "extra_consts", None)
+        if xc:
+            k2 = "::".join(name.split("::")[-2:])
+            if k2 in xc:
+                return xc[k2]
         # enum variant constant?
         if "::" in name:
             e = self.reg.lookup("::".join(name.split("::")[:-1]))
@@ -610,6 +630,15 @@ class Engine:
                 cands += [(mf, c) for c in mf.find(last) if c[1] in ("const", "static")]
         if cands:
             names = sorted(set(c[1][0] for c in cands))
+            segs = name.split("::")
+            k = 2
+            while len(names) > 1 and k <= len(segs):
+                suf = "::".join(segs[-k:])
+                c2 = [c for c in cands if c[1][0] == suf or c[1][0].endswith("::" + suf)]
+                if c2:
+                    cands = c2
+                    names = sorted(set(c[1][0] for c in cands))
+                k += 1
             if len(names) > 1:
                 raise Unsupported("ambiguous constant %r: %s" % (t, names[:4]))
             mf, (nm, kind, ln) = cands[0]
@@ -933,6 +962,8 @@ class Engine:
                 continue
             if k == "return":
                 rv = st.mem.get((fr.uid, "_0"), UNIT)
+                if fr.wrap is not None:
+                    rv = fr.wrap(rv)
                 st.frames.pop()
                 if not st.frames:
                     return self.end(st, "return", rv)
@@ -1073,8 +1104,8 @@ class Engine:
                 return self.finish_call(st, fr, dest, ret_bb, out, work, callee)
         raise Unsupported("call to %r has neither model nor inline rule (in %s)" % (callee, fr.fn.name))
 
-    def push_frame(self, st, fr, fn, args, dest, ret_bb):
-        nf = Frame(fn, st.uid, dest, ret_bb)
+    def push_frame(self, st, fr, fn, args, dest, ret_bb, wrap=None):
+        nf = Frame(fn, st.uid, dest, ret_bb, wrap)
         st.uid += 1
         if len(args) != len(fn.args):
             raise Unsupported("arity mismatch calling %s" % fn.name)
@@ -1086,7 +1117,7 @@ class Engine:
     def finish_call(self, st, fr, dest, ret_bb, out, work, callee):
         """out: value | Panic(info) | Fork([(cond, value|Panic)]) | Inline(fn, args)"""
         if isinstance(out, Inline):
-            return self.push_frame(st, fr, out.fn, out.args, dest, ret_bb)
+            return self.push_frame(st, fr, out.fn, out.args, dest, ret_bb, getattr(out, "wrap", None))
         if isinstance(out, FirstMatch):
             import time
             sol = z3.Solver()
@@ -1182,8 +1213,8 @@ class FirstMatch:
 
 
 class Inline:
-    def __init__(self, fn, args):
-        self.fn, self.args = fn, args
+    def __init__(self, fn, args, wrap=None):
+        self.fn, self.args, self.wrap = fn, args, wrap
 
 
 def elem_type(ty):
@@ -1350,10 +1381,12 @@ def m_from_residual(engine, st, fr, callee, args, ops):
     if isinstance(v, Adt) and v.variant == "Err":
         inner = v.fields[0]
         # `From::from` on the error is identity for same-typed errors; conversions are modelled by the caller
-        m = re.search(r"<.*Result<.*?, (.*)> as FromResidual<.*Result<.*Infallible, (.*)>>>", callee)
+        m = re.search(r"<.*Result<.*, ([\w:]+)> as FromResidual<.*Result<.*Infallible, ([\w:]+)>>>", callee)
         if m and m.group(1).strip() != m.group(2).strip():
-            st.events.append(("from", m.group(2).strip(), m.group(1).strip()))
-            inner = Adt("From", "from", [inner])
+            conv = getattr(engine, "from_conversions", {}).get((m.group(2).strip(), m.group(1).strip()))
+            if conv is None:
+                raise Unsupported("error conversion %s -> %s in %s" % (m.group(2), m.group(1), callee))
+            inner = conv(inner)
         return Adt("Result", "Err", [inner])
     raise Unsupported("from_residual of %r" % (v,))
 
@@ -1468,11 +1501,7 @@ def m_option_map(engine, st, fr, callee, args, ops):
         return v
     if isinstance(v, Adt) and v.variant == "Some":
         fn = engine.resolve_fn(clo.name)
-        res = engine.call_pure(st, fn, [clo, v.fields[0]])
-        oks = [r for r in res if r.status == "return"]
-        if len(res) != 1 or not oks:
-            raise Unsupported("Option::map closure with %d paths" % len(res))
-        return Adt("Option", "Some", [oks[0].value])
+        return Inline(fn, [clo, v.fields[0]], wrap=lambda rv: Adt("Option", "Some", [rv]))
     raise Unsupported("Option::map on %r" % (v,))
 
 
